@@ -16,7 +16,7 @@
     [seeded] flag); the model follows the repaired code, the clause is now proved and the
     witness is kept as a regression case here and in the harness. *)
 From Coq Require Import Floats.
-From Srtla Require Import Base Constants LinkCc LinkCcP Run_C16 C16P.
+From Srtla Require Import Base Constants LinkCc LinkCcP Run_C16 C16P LinkCcRttP.
 From Srtla Require FConstants.
 Local Open Scope Z_scope.
 
@@ -37,6 +37,19 @@ Proof. repeat split; try reflexivity; vm_compute; congruence. Qed.
     Rust types, and the model's own smoothed RTT stays finite and non-zero once set. *)
 Theorem C16_monitor_holds : forall ops, wf ops = true -> ok_C16 (run ops) = true.
 Proof. exact model_satisfies_monitor. Qed.
+
+(** The same with the premise on the INPUTS only ([wf_inputs]: a conn_id occurs once per call,
+    counters have their Rust types, and every RTT the connection reports is either no sample
+    — zero, negative, NaN, infinite — or a finite value in [2^-200, 2^200] ms; the real RTT
+    source is capped at 10 000 ms).  The part of [wf] about the model's own smoothed RTT is
+    derived: the age-bucketed EWMA of binary64 numbers in that interval stays in it (IEEE-754
+    round-to-nearest-even, Flocq).  Depends on the standard library's float and real-number
+    axioms (allow-listed by name in props/C16.json). *)
+Theorem C16_wf_from_inputs : forall ops, wf_inputs ops = true -> wf ops = true.
+Proof. exact wf_inputs_wf. Qed.
+
+Theorem C16_monitor_holds_for_inputs : forall ops, wf_inputs ops = true -> ok_C16 (run ops) = true.
+Proof. exact model_satisfies_monitor_inputs. Qed.
 
 (** Invariants of everything the controller holds after ANY history (no premise):
     range, Bootstrap <-> unseeded <-> at the floor, budgets and counters within their bounds
@@ -149,7 +162,7 @@ Definition f7_witness : list op :=
       (seq 0 19).
 
 Example C16_f7_witness_now_ok :
-  wf f7_witness = true /\ ok_C16 (run f7_witness) = true /\
+  wf_inputs f7_witness = true /\ wf f7_witness = true /\ ok_C16 (run f7_witness) = true /\
   map (fun x => map o_tgt (t_links (snd x))) (skipn 16 (run f7_witness)) = [[100112]; [100000]; [100000]].
 Proof. vm_compute. repeat split; reflexivity. Qed.
 
@@ -165,7 +178,7 @@ Definition ex_inp (k : nat) : inp :=
 Definition ex_ops : list op := map (fun k => Tick (2000 * Z.of_nat k + 1) [ex_inp k]) (seq 0 11).
 
 Example C16_wf_nonvacuous :
-  wf ex_ops = true /\ ok_C16 (run ex_ops) = true /\
+  wf_inputs ex_ops = true /\ wf ex_ops = true /\ ok_C16 (run ex_ops) = true /\
   map (fun x => map (fun o => (o_st o, o_tgt o, o_deg o)) (t_links (snd x))) (run ex_ops) =
   [[(1, 1060000, false)]; [(1, 1123600, false)]; [(3, 1000000, false)]; [(3, 1000000, true)];
    [(3, 1000000, true)]; [(1, 1040000, true)]; [(4, 780000, true)]; [(1, 811200, true)];
